@@ -169,3 +169,19 @@ CHECKS['C11'] = dict(stages=_rt('C11', 5000, 100000, 300) + [
           thorough=dict(cases=1600000, min_nontrivial=10000, time_budget=900)),
 ], assumptions=_e4_assume + ['a sanitizer report, failed assertion or fatal signal inside the runtime on a valid model is the violation; '
                              'LeakSanitizer is not used as an oracle'])
+
+
+# ---- E2: libFuzzer campaigns (thorough tier only) on the in-process component harnesses ------------------------------------
+def _fz(harness, hx, variant='core', exclude=(), budget=240, max_len=1200):
+    return stage(harness, hx, name=harness + '(libFuzzer)' + ('' if variant == 'core' else '@' + variant), variant=variant, exclude=exclude,
+                 engine='libfuzzer', thorough_only=True, thorough=dict(time_budget=budget, workers=8, max_len=max_len), tag_suffix='')
+
+
+for _p in ('C05', 'C12', 'C13'):
+    CHECKS[_p]['stages'].append(_fz('h_alloc', ['h_alloc.c']))
+    CHECKS[_p]['stages'].append(_fz('h_alloc', ['h_alloc.c'], variant='core_small'))
+CHECKS['C16']['stages'].append(_fz('h_order', ['h_order.c'], max_len=500))
+CHECKS['C18']['stages'].append(_fz('h_numeric', ['h_numeric.c'], max_len=100))
+CHECKS['C14']['stages'].append(_fz('h_partition', ['h_partition.c'], exclude=['lp/lp.c'], max_len=60))
+CHECKS['C11']['stages'].append(_fz('h_alloc', ['h_alloc.c']))
+CHECKS['C11']['stages'].append(_fz('h_numeric', ['h_numeric.c'], max_len=100))
